@@ -78,6 +78,11 @@ func (r *receiver) receiveRequest(ctx context.Context, initiator peer.ID, incomi
 			}
 		} else {
 			if err := r.manager.dataTransferNetwork.SendMessage(ctx, initiator, response); err != nil {
+				// a refused request closes the channel's transport channel even
+				// when the refusal itself cannot be delivered
+				if receiveErr != nil && receiveErr != datatransfer.ErrPause && !duplicate {
+					_ = r.manager.transport.CloseChannel(ctx, chid)
+				}
 				return err
 			}
 		}
